@@ -17,6 +17,7 @@
 // lock-step itself checks (one draw too many or too few desynchronises every later pass).
 #include "common/proto.h"
 
+#include <algorithm>
 #include <atomic>
 #include <cmath>
 #include <limits>
@@ -323,6 +324,9 @@ static bool doRun(const std::vector<std::string> &t)
     planner->setProblemDefinition(pdef);
     planner->setup();
     ompl::RNG twin((std::uint_fast32_t)*lseed);
+    // setup() of a space of dimension > 2 samples states to infer the default projection's cell sizes:
+    // only what the planner draws from here on is part of the script
+    gLog = Log();
 
     std::cout << "S rrtstar dim=" << gDim << " obj=" << kind << " maxdist=" << vp::bits(planner->maxDist()) << " krrt=" << vp::bits(planner->krrt())
               << " gbias=" << vp::bits(planner->gbias()) << " gthr=" << vp::bits(*gthr) << " thr=" << vp::bits(obj->getCostThreshold().value())
@@ -379,10 +383,13 @@ static bool doRun(const std::vector<std::string> &t)
             uint64_t ph = FNV0;
             for (size_t i = 0; pg && i < pg->getStateCount(); ++i)
                 ph = ptHash(ph, pg->getState(i));
-            std::cout << "R rep approx=" << (ps.approximate_ ? 1 : 0) << " diff=" << vp::bits(ps.approximate_ ? ps.difference_ : planner->digestApprox())
-                      << "";
+            ob::Cost tc = pg ? pg->cost(obj) : ob::Cost(std::numeric_limits<double>::quiet_NaN());
+            std::cout << "R rep approx=" << (ps.approximate_ ? 1 : 0) << " diff=" << (ps.approximate_ ? vp::bits(ps.difference_) : std::string("-"))
+                      << " stored=" << vp::bits(ps.cost_.value()) << " opt=" << (ps.optimized_ ? 1 : 0) << " plen=" << (pg ? pg->getStateCount() : 0)
+                      << " ph=" << ph << " true=" << vp::bits(tc.value()) << "\n";
         }
-        (void)st;
+        std::cout << "S tree\nR " << planner->tree() << "\n";
+        std::cout << "I solve=" << k << " status=" << st.asString() << " calls=" << calls << " passes=" << digests.size() << "\n";
     }
     return true;
 }
@@ -408,6 +415,31 @@ int main()
         {
             if (!doRun(t))
                 std::cout << "bad-op\n";
+        }
+        else if (t[0] == "sorttest")
+        {
+            // self-test of the model's std::sort port: indices 0..k-1 sorted by integer key, exactly as
+            // RRTstar sorts sortedCostIndices with CostIndexCompare
+            size_t i = 1;
+            auto xs = vp::takeCounted(t, i);
+            bool ok = xs && i == t.size();
+            std::vector<long long> keys;
+            if (ok)
+                for (auto &x : *xs)
+                {
+                    auto v = vp::parseInt(x);
+                    if (!v) { ok = false; break; }
+                    keys.push_back(*v);
+                }
+            if (!ok) { std::cout << "bad-op\n"; continue; }
+            std::vector<std::size_t> idx(keys.size());
+            for (size_t j = 0; j < idx.size(); ++j)
+                idx[j] = j;
+            std::sort(idx.begin(), idx.end(), [&](std::size_t a, std::size_t b) { return keys[a] < keys[b]; });
+            std::string out = "sorted";
+            for (auto j : idx)
+                out += " " + std::to_string(j);
+            std::cout << out << "\n";
         }
         else
             std::cout << "bad-op\n";
